@@ -7,6 +7,7 @@ import (
 	"sync"
 	"time"
 
+	"github.com/VKCOM/statshouse/internal/data_model/gen2/tlstatshouse"
 	v "github.com/VKCOM/statshouse/internal/zzverif"
 )
 
@@ -179,4 +180,30 @@ func Harness_C31_pop_retry() {
 		v.Reach("C31.pop.two_failures")
 	}
 	v.Quiesce()
+}
+
+// The drop report the sender injects into the stream (encodeClientWriteErrPacket) is framed like every
+// forwarded packet: a 4-byte little-endian length equal to the number of bytes that follow, and those
+// bytes are a TL statshouse.addMetricsBatch carrying the dropped byte count - for a count from
+// {1, 4096, 1000000} and a 0..8-byte leftover in the scratch buffer.
+func Harness_C31_drop_report_frame() {
+	s := &tcpSender{}
+	m := s.getWriteErrM()
+	dropped := []float64{1, 4096, 1_000_000}[v.Choice(3)]
+	scratch := make([]byte, pktHeadLen, 64)
+	extra := v.Choice(9)
+	for i := 0; i < extra; i++ {
+		scratch = append(scratch, 0xee)
+	}
+	pkt := encodeClientWriteErrPacket(dropped, m, scratch)
+	v.Assert("C31.report.has_length_header", len(pkt) > pktHeadLen)
+	n := int(uint32(pkt[0]) | uint32(pkt[1])<<8 | uint32(pkt[2])<<16 | uint32(pkt[3])<<24)
+	v.Assert("C31.report.length_header_counts_the_bytes_that_follow", n == len(pkt)-pktHeadLen)
+	var batch tlstatshouse.AddMetricsBatch
+	rest, err := batch.ReadTL1Boxed(pkt[pktHeadLen:])
+	v.Assert("C31.report.body_is_one_metrics_batch", err == nil && len(rest) == 0 && len(batch.Metrics) == 1)
+	if err == nil && len(batch.Metrics) == 1 {
+		v.Assert("C31.report.carries_the_dropped_byte_count", len(batch.Metrics[0].Value) == 1 && batch.Metrics[0].Value[0] == dropped)
+	}
+	v.Reach("C31.report.end")
 }
